@@ -1,18 +1,19 @@
 PROP = {
     "lean_modules": ["GunYu.Props.C07"],
     "audit_namespaces": ["GunYu.Props.C07"],
-    "required_theorems": [],
+    "required_theorems": ['GunYu.Props.C07.cp_boundary', 'GunYu.Props.C07.cp_boundary_fresh', 'GunYu.Props.C07.cp_monotone', 'GunYu.Props.C07.restart_monotone', 'GunYu.Props.C07.idle_stores_nothing_fresh'],
     "expected_facts": {},
     "harness": [{"name": "Sender", "pkg": "./syncer/", "test": "TestVerifSender"}],
     "driver": "drv_Sender",
     "violation_prefix": "C07:",
-    "rule": "TODO",
-    "trusted": [],
-    "assumptions": [],
+    "rule": "cases = (config, stream, schedule): config over txn/ticker mode x resumable x pipelined x batch count {1,2,3,4,8,100} x byte limit {1,40,200,2^30} x TargetDb/TargetDbMap x db/command/prefix filters x startDbId/pre-existing checkpoints; stream of 0-30 (quick) / 0-60 (thorough) source commands (binary args, SELECT to mapped/unmapped/filtered DBs, MULTI groups of 0-4 commands, PING, REPLCONF GETACK, sentinel hello, blacklisted and NoRoute commands, keys with reserved/filtered prefixes); schedule = writes of 1-6 commands at chosen virtual instants with idle gaps of 0-12 s (also before the first item) and five ticker-period triples, run on the REAL RedisOutput.sendAof (parser goroutine, sendCmdsBatch loop, real conn.RedisConn batchers) inside testing/synctest against the target double; output = the target's request log with the DB each request executes in, plus the real StartPoint after every (thorough) / sampled (quick) crash prefix of that log; compared line by line with the Lean model (parseStep, run, applyLog, startPoint). Independent Go monitors check the property on the real log. distinct_nontrivial = distinct non-empty request logs.",
+    "trusted": ['target double (harness/overlay/pkg/vfdoubles/target.go): MULTI/EXEC atomicity, per-DB hashes, INFO keyspace; Redis command semantics of data commands are not interpreted', 'Go testing/synctest virtual time; select over simultaneously ready channels is never exercised (ticker periods and write instants are pairwise distinct)', 'RESP decoding (C12) and the filter functions (C10) are parameters of the model here: theorems hold for every filter'],
+    "assumptions": ['healthy target (no error replies); receive-side error timing of the pipelined sender is runtime behaviour outside the model', 'source stream well formed: increasing offsets; transactions not nested (Redis never propagates nested MULTI)', 'strings.EqualFold on the sentinel hello channel is modelled as ASCII case folding'],
+    "partial": [],
 }
 
 MANIFEST = {
-    "text": "TODO",
-    "note": "TODO",
-    "technique": "Lean 4 proof (invariants by induction over event lists) + differential correspondence under virtual time",
+    "text": 'Lean theorems by induction over ANY event list: every stored offset is non-negative and is an offset carried by a received item (a command end, or the start offset item) or the position held at the start (cp_boundary); within a run stored offsets never decrease (cp_monotone); a fresh run stores nothing while idle, however many ticks fire (idle_stores_nothing_fresh); a resumed run never stores below its resume position (restart_monotone). Tied to the real loop by correspondence under virtual time; the real StartPoint is evaluated after every crash prefix.',
+    "note": "trusted: Lean kernel (propext, Classical.choice, Quot.sound only); hand-written models Sender.lean/Target.lean tied by correspondence (not regenerated); target double; synctest virtual time; healthy target assumed",
+    "technique": "Lean 4 proof (invariants by induction over arbitrary event lists; wire-order invariant) + differential correspondence of the real sender under virtual time + crash-prefix exploration",
 }
